@@ -212,6 +212,8 @@ type Evaluator struct {
 	// Fails, when non-nil, collects every location (rendered by Loc) at which a
 	// keyword of an evaluated subschema failed.
 	Fails map[string]struct{}
+	// Remotes maps the URL part of a non-local $ref (without fragment) to the decoded document.
+	Remotes map[string]any
 	// MaxDepth bounds $ref chasing (generated references never loop).
 	depth int
 }
@@ -240,12 +242,29 @@ func Join(loc, member string) string {
 	return loc + "." + member
 }
 
-func (e *Evaluator) resolve(ref string) (any, bool) {
-	if !strings.HasPrefix(ref, "#") {
-		return nil, false
-	}
-	ptr := ref[1:]
+// resolve returns the target of a reference and the document it lives in.
+func (e *Evaluator) resolve(ref string) (any, any, bool) {
 	cur := e.Root
+	if !strings.HasPrefix(ref, "#") {
+		i := strings.Index(ref, "#")
+		url := ref
+		frag := "#"
+		if i >= 0 {
+			url, frag = ref[:i], ref[i:]
+		}
+		doc, ok := e.Remotes[url]
+		if !ok {
+			return nil, nil, false
+		}
+		cur, ref = doc, frag
+	}
+	root := cur
+	tgt, ok := resolveIn(cur, ref)
+	return tgt, root, ok
+}
+
+func resolveIn(cur any, ref string) (any, bool) {
+	ptr := ref[1:]
 	if ptr == "" {
 		return cur, true
 	}
@@ -342,12 +361,15 @@ func (e *Evaluator) eval(schema, inst any, loc string) bool {
 		if e.depth > 64 {
 			return true
 		}
-		target, found := e.resolve(ref)
+		target, root, found := e.resolve(ref)
 		if !found {
 			return true
 		}
 		e.depth++
+		saved := e.Root
+		e.Root = root
 		r := e.eval(target, inst, loc)
+		e.Root = saved
 		e.depth--
 		return r
 	}
